@@ -1637,6 +1637,33 @@ def tie_entries(res, rng, n, pool):
                                 lambda l: clist(ct4(x) for x in l))))
         meta.append((mn, params, tr, out))
         res.seen(('entry', mn, params, tr))
+        # independent oracle on the JOINED collection (sides multiplied)
+        bmat = np.array(tr[3:] if tr else [1, 0, 0, 0, 1, 0, 0, 0, 1], float)
+        if np.abs(bmat.reshape(3, 3) @ bmat.reshape(3, 3).T
+                  - np.eye(3)).max() < 1e-9:
+            truth = {'O': tr[:3] if tr else (0, 0, 0), 'B': list(bmat)}
+            tr_saved, tr = tr, []
+            base = call(run)
+            tr = tr_saved
+            wrong = first = None
+            if base[0] == 'ok':
+                wrong = 0
+                for pt in points_for(rng, 6):
+                    p_aux = mcnpref.to_aux(truth, pt)
+                    want = mcnp_sense(mn, params, p_aux)
+                    got_s = coll_sense([(out, 1)], pt)
+                    base_s = coll_sense([(base[1][1], 1)], p_aux)
+                    if None in (want, got_s, base_s) or base_s != want:
+                        continue
+                    if got_s != want:
+                        wrong += 1
+                        first = first or list(pt)
+            if wrong:
+                res.violation(
+                    'impl-violation', f'{mn} {params} moved by {tr}: the '
+                    f'joined collection has the wrong sense at {first}',
+                    {'input': {'mn': mn, 'params': params, 'tr': tr,
+                               'point': first}}, found_input=True)
         res.count(f'entry:parts={len(entry)}:surfs={len(out)}')
     bad, errs = common.run_case_files(
         'c04_entry', HEADER,
